@@ -34,7 +34,8 @@ import (
 func init() {
 	fw.Register(&fw.Prop{
 		ID: "C07",
-		Rule: "case = one first flight: the ClientHello crypto/tls' client emits for a generated tls.Config (server name kinds, 0..95 ALPN protocols incl. 255-byte " +
+		Rule: "nested sessions: tls matcher -> tls handler -> tls matchers on the decrypted stream (an inner ClientHello with another name, or no TLS): route and {l4.tls.server_name} must come from the inner bytes. " +
+			"case = one first flight: the ClientHello crypto/tls' client emits for a generated tls.Config (server name kinds, 0..95 ALPN protocols incl. 255-byte " +
 			"ones and >16 KiB lists, Min/MaxVersion TLS1.0..1.3, cipher-suite and curve subsets, session resumption via a filled ClientSessionCache, ECH outer hellos), or one " +
 			"length-consistent mutation of it (14 classes); oracle: (a) the matcher matches and the ClientHelloInfo it hands to sub-matchers equals field by field the one " +
 			"crypto/tls' server hands to GetConfigForClient, placeholders equal the reference server name / the hello's legacy_version; (b) sni and alpn sub-matcher verdicts equal " +
@@ -48,9 +49,11 @@ func init() {
 		MinEvals: 1000,
 		Plan: func(tier string) []fw.ChildSpec {
 			if tier == "thorough" {
-				return []fw.ChildSpec{{Name: "diff", Mode: "diff", Shards: 16, Timeout: 60 * time.Minute}}
+				return []fw.ChildSpec{{Name: "diff", Mode: "diff", Shards: 16, Timeout: 60 * time.Minute},
+					{Name: "nested", Mode: "nested", Shards: 2, Timeout: 30 * time.Minute}}
 			}
-			return []fw.ChildSpec{{Name: "diff", Mode: "diff", Shards: 8, Timeout: 10 * time.Minute}}
+			return []fw.ChildSpec{{Name: "diff", Mode: "diff", Shards: 8, Timeout: 10 * time.Minute},
+				{Name: "nested", Mode: "nested", Shards: 1, Timeout: 10 * time.Minute}}
 		},
 		Run:    run,
 		Replay: replay,
@@ -603,6 +606,10 @@ func (e *env) routingFor(r *rand.Rand, flight []byte, ref *tls.ClientHelloInfo, 
 // ---------------------------------------------------------------------------
 
 func run(c *fw.Ctx) {
+	if c.Mode == "nested" {
+		runNested(c)
+		return
+	}
 	hmods.Quiet(c.OutDir + "/caddyhome")
 	e, err := newEnv(c)
 	if err != nil {
